@@ -211,7 +211,12 @@ class Command:
                     else:
                         target.write(
                             "[{}]".format(
-                                ", ".join(['"%s"' % v.strip('"') for v in value])
+                                ", ".join(
+                                    [
+                                        v if v.startswith('"') else '"%s"' % v
+                                        for v in value
+                                    ]
+                                )
                             )
                         )
                     continue
